@@ -252,6 +252,8 @@ def steps_of(trace):
     that asks twice for one step, e.g. W and U separately) count as one step."""
     out = []
     for req in trace:
+        if req[1] is not None and req[0] == req[1]:
+            continue  # an empty request (e.g. a shape probe) is not a step
         if out and out[-1][0] == req[0] and out[-1][1] == req[1]:
             continue
         out.append(req)
